@@ -596,16 +596,14 @@ func (d *stubDesc) driverSource() string {
 	}
 	body.WriteString("\treturn nil\n}\n")
 	src := body.String()
-	needMath, needJSON := litNeeds(src)
+	// encoding/json and math are imported unconditionally and kept used by blank declarations: whether the
+	// value literals need them cannot be read off the text, which also contains the interface name and
+	// string values ("interface json.RawMessage" — the mistake the generator itself made before dfa0aa0)
 	fmt.Fprintf(&b, "package d%d\n\nimport (\n\t\"context\"\n\t\"io\"\n", d.idx)
-	if needJSON {
-		b.WriteString("\t\"encoding/json\"\n")
-	}
-	if needMath {
-		b.WriteString("\t\"math\"\n")
-	}
+	b.WriteString("\t\"encoding/json\"\n")
+	b.WriteString("\t\"math\"\n")
 	b.WriteString("\n\t\"github.com/varlink/go/varlink\"\n")
-	fmt.Fprintf(&b, "\tg \"scratch/g%d\"\n\t\"scratch/rt\"\n)\n\nvar _ = varlink.More\n\n", d.idx)
+	fmt.Fprintf(&b, "\tg \"scratch/g%d\"\n\t\"scratch/rt\"\n)\n\nvar _ = varlink.More\nvar _ json.RawMessage\nvar _ = math.MaxInt64\n\n", d.idx)
 	b.WriteString(src)
 	return b.String()
 }
@@ -630,7 +628,7 @@ func runStub(e *env) error {
 		} else {
 			dc = g.randomDescription()
 		}
-		if strings.HasPrefix(dc.tag, "x-") || strings.HasPrefix(dc.tag, "imp=") || strings.HasPrefix(dc.tag, "pkg=") || dc.tag == "random-risky" {
+		if strings.HasPrefix(dc.tag, "x-") || dc.tag == "random-risky" {
 			dc = descCase{"interface a.b\ntype T (a: ?int, b: []T)\nmethod M(t: T, s: string) -> (t: ?T)\nerror E (t: T)\n", "fallback"}
 		}
 		tree, _, _ := parseReal(dc.text)
